@@ -14,6 +14,7 @@ import (
 	"os"
 	"sort"
 	"strings"
+	"sync"
 
 	"github.com/consensys/gnark/backend/hint"
 	"github.com/consensys/gnark/constraint"
@@ -60,6 +61,31 @@ func keccakInt(data []byte) *big.Int {
 	h := sha3.NewLegacyKeccak256()
 	h.Write(data)
 	return new(big.Int).SetBytes(h.Sum(nil))
+}
+
+// forgeries: NBits replacements that decompose the 256-bit value ft as al (= ft + k*r) — at every
+// decomposition of that value, or only at its first, second or third one (a dishonest prover answers
+// each hint call as it likes; a circuit that decomposes a value twice must compare both answers).
+func forgeries(ft, al *big.Int) []map[hint.ID]hint.Function {
+	var out []map[hint.ID]hint.Function
+	for _, only := range []int{-1, 0, 1, 2} {
+		only := only
+		var mu sync.Mutex
+		seen := 0
+		out = append(out, map[hint.ID]hint.Function{r1csx.NBitsID: r1csx.NBitsOf(func(x *big.Int, nb int) *big.Int {
+			if nb == 256 && x.Cmp(ft) == 0 {
+				mu.Lock()
+				k := seen
+				seen++
+				mu.Unlock()
+				if only < 0 || k == only {
+					return al
+				}
+			}
+			return x
+		})})
+	}
+	return out
 }
 
 func main() {
@@ -118,7 +144,7 @@ func main() {
 			case "forge-id":
 				forgeTarget = new(big.Int).Mod(&p.IdComms[g.Intn(*b)], r)
 			}
-			var overrides map[hint.ID]hint.Function
+			var overrides []map[hint.ID]hint.Function
 			if forgeTarget != nil {
 				alias = new(big.Int).Add(forgeTarget, new(big.Int).Mul(big.NewInt(k), r))
 				if alias.BitLen() > 256 {
@@ -143,12 +169,7 @@ func main() {
 					p.InputHash = *keccakInt(data)
 				}
 				ft, al := forgeTarget, alias
-				overrides = map[hint.ID]hint.Function{r1csx.NBitsID: r1csx.NBitsOf(func(x *big.Int, nb int) *big.Int {
-					if nb == 256 && x.Cmp(ft) == 0 {
-						return al
-					}
-					return x
-				})}
+				overrides = forgeries(ft, al)
 			}
 			asg := func() *prover.InsertionMbuCircuit {
 				return &prover.InsertionMbuCircuit{InputHash: new(big.Int).Set(&p.InputHash), StartIndex: p.StartIndex, PreRoot: new(big.Int).Set(&p.PreRoot),
@@ -167,8 +188,13 @@ func main() {
 				// satisfiability = EXISTS hints: the honest solver decides it; a forged hint may only
 				// ever turn an unsatisfiable instance into an accepted one (that would be unsoundness)
 				rc = r1csx.Solve(ci, asg(), nil)
-				if overrides != nil && rc != nil && r1csx.Solve(ci, asg(), overrides) == nil {
-					res = "unsound:accepted-with-forged-decomposition"
+				if rc != nil {
+					for _, ov := range overrides {
+						if r1csx.Solve(ci, asg(), ov) == nil {
+							res = "unsound:accepted-with-forged-decomposition"
+							break
+						}
+					}
 				}
 			}
 			if res == "" {
@@ -200,7 +226,7 @@ func main() {
 			case "forge-post":
 				forgeTarget = new(big.Int).Mod(&q.PostRoot, r)
 			}
-			var overrides map[hint.ID]hint.Function
+			var overrides []map[hint.ID]hint.Function
 			if forgeTarget != nil {
 				alias = new(big.Int).Add(forgeTarget, r)
 				var data []byte
@@ -218,12 +244,7 @@ func main() {
 				data = append(data, enc(&q.PostRoot)...)
 				q.InputHash = *keccakInt(data)
 				ft, al := forgeTarget, alias
-				overrides = map[hint.ID]hint.Function{r1csx.NBitsID: r1csx.NBitsOf(func(x *big.Int, nb int) *big.Int {
-					if nb == 256 && x.Cmp(ft) == 0 {
-						return al
-					}
-					return x
-				})}
+				overrides = forgeries(ft, al)
 			}
 			idx := make([]frontend.Variable, *b)
 			for i, v := range q.DeletionIndices {
@@ -243,8 +264,13 @@ func main() {
 			res := ""
 			if cd != nil {
 				rc = r1csx.Solve(cd, asg(), nil)
-				if overrides != nil && rc != nil && r1csx.Solve(cd, asg(), overrides) == nil {
-					res = "unsound:accepted-with-forged-decomposition"
+				if rc != nil {
+					for _, ov := range overrides {
+						if r1csx.Solve(cd, asg(), ov) == nil {
+							res = "unsound:accepted-with-forged-decomposition"
+							break
+						}
+					}
 				}
 			}
 			if res == "" {
